@@ -1022,9 +1022,12 @@ class Interp:
     def do_dim(self, s):
         ty = s['ty']
         if s.get('bounds') is None:
-            st = make_storage(ty, self.env)
+            # DIM of a scalar or record declares it; it is not an assignment:
+            # a variable that exists already (a second pass through the DIM, a
+            # local of a SUB ... STATIC on a later call) keeps its value
             target = self.shared if s.get('shared') else self.scope.vars
-            target[s['name']] = st
+            if s['name'] not in target:
+                target[s['name']] = make_storage(ty, self.env)
             return
         bounds = []
         for lb, ub in s['bounds']:
